@@ -14,7 +14,8 @@ import tradingenv.rewards as rewards
 
 def scenario(cfg):
     """price path per bar (mid), optional quote 30 s after a bar (latency 60: seen before the decision executes) and 90 s after"""
-    a = ETF("AAA")
+    from tradingenv.contracts import ES
+    a = ES(2020, 12) if cfg.get("future") else ETF("AAA")
     n = len(cfg["bars"])
     grid = [D0 + timedelta(days=i) for i in range(n)]
     tr = Transmitter(grid)
@@ -48,7 +49,14 @@ def run(cfg):
         price = pending if pending is not None else (cfg["after"].get(k - 1) if (k - 1) in cfg.get("after", {}) else cfg["bars"][k])
         q = hold0.get(a, 0.0)
         cash = hold0.get(b.base_currency, 0.0)
-        nlv_dec = cash + q * (price * 0.999 if q > 0 else price * 1.001)
+        if cfg.get("future"):
+            # a margined position: the account holds cash + posted margin, and the variation since the last mark is settled on marking
+            marg = dict(b.holdings_margins).get(a, 0.0)
+            last = b._last_marking_to_market_price.get(a, price)
+            liq = price * 0.999 if q > 0 else price * 1.001
+            nlv_dec = cash + marg + q * a.multiplier * (liq - last)
+        else:
+            nlv_dec = cash + q * (price * 0.999 if q > 0 else price * 1.001)
         insolvent = nlv_dec <= 0
         if ended:
             try:
@@ -107,6 +115,9 @@ def configs(tier):
             out.append(dict(bars=[100, 100, 100, 55, 55], latent={2: 60}, actions=[3.0, 3.0, 1.0, 0.5, 0.5], reward=reward, delay=delay))
             # short squeeze
             out.append(dict(bars=[100, 100, 150, 150, 150], actions=[-3.0, -3.0, 1.0, 0.5, 0.5], reward=reward, delay=delay))
+            # a leveraged long future whose bid collapses to exactly zero (a quote the contract accepts), and a plain crash
+            out.append(dict(bars=[100, 100, 0.0, 0.0, 0.0], actions=[2.0, 2.0, 0.5, 0.5, 0.5], reward=reward, delay=delay, future=True, latency=0))
+            out.append(dict(bars=[100, 100, 40, 40, 40], actions=[2.0, 2.0, 0.5, 0.5, 0.5], reward=reward, delay=delay, future=True, latency=0))
             if tier != "quick":
                 out.append(dict(bars=[100, 100, 100, 100, 100, 100], latent={3: 50}, after={3: 101}, actions=[3.5, 3.5, 3.5, 1.0, 0.2, 0.2], reward=reward, delay=delay, fee=0.001))
                 out.append(dict(bars=[100, 66, 66, 66], actions=[3.0, 1.0, 1.0, 1.0], reward=reward, delay=delay, latency=0))
